@@ -362,6 +362,23 @@ func runDispatchFile(in, out, targetsFile, tmp string) (int, error) {
 		for _, t := range ts {
 			verdicts = append(verdicts, verdict(flt, strings.Join(t, "")))
 		}
+		// the decision is a function of the path alone: the same targets once more with another method, another authority and
+		// the headers proxies and scripts add (some of which name other paths) must get the same decisions
+		envDiff := -1
+		for i, t := range ts {
+			req := dispatchReq(strings.Join(t, ""), map[string]string{"x-envoy-original-path": "/healthz?probe=1", "x-original-url": "/public/x.css",
+				"x-rewrite-url": "/static/site.css", "x-forwarded-proto": "http", "x-requested-with": "XMLHttpRequest", "origin": "https://evil.example",
+				"access-control-request-method": "GET", "referer": "https://app.test/public/index.html", ":path": "/public/index.html"})
+			h := req.Attributes.Request.Http
+			h.Method, h.Host, h.Scheme = []string{"POST", "OPTIONS", "HEAD", "DELETE"}[i%4], "other.test:8443", "http"
+			v := 1
+			if resp, err := flt.Check(ctx, req); err == nil && resp != nil && resp.GetStatus().GetCode() == 0 {
+				v = 0
+			}
+			if v != verdicts[i].(int) && envDiff < 0 {
+				envDiff = i + 1
+			}
+		}
 		rl := []any{}
 		for _, r := range c.Rules {
 			pl := func(ps []dPat) []any {
@@ -373,7 +390,7 @@ func runDispatchFile(in, out, targetsFile, tmp string) (int, error) {
 			}
 			rl = append(rl, map[string]any{"excl": pl(r.Excl), "incl": pl(r.Incl)})
 		}
-		rec.emit(map[string]any{"ev": "c07", "id": c.ID, "rules": rl, "verdicts": verdicts, "own": own, "conc": conc})
+		rec.emit(map[string]any{"ev": "c07", "id": c.ID, "rules": rl, "verdicts": verdicts, "own": own, "conc": conc, "envDiff": envDiff})
 	}
 	return n, sc.Err()
 }
